@@ -96,6 +96,12 @@ M = [
  ("C14__nonce_tag", "secec/bitcoin/schnorr.go", "schnorrTagNonce     = \"BIP0340/nonce\"", "schnorrTagNonce     = \"BIP0340/aux\""),
  ("C14__msg_not_in_nonce", "secec/bitcoin/schnorr.go", "rand := schnorrTaggedHash(schnorrTagNonce, t[:], pBytes, msg)", "rand := schnorrTaggedHash(schnorrTagNonce, t[:], pBytes)"),
  ("C14__aux_short_read", "secec/bitcoin/schnorr.go", "if _, err := io.ReadFull(rand, auxEntropy[:]); err != nil {", "if _, err := io.ReadFull(rand, auxEntropy[:16]); err != nil {"),
+ ("C16__msm_high_nibble_twice", "point_mul_multi.go", "\t\t\tpTbls[j].SelectAndAdd(v, uint64(b&0xf))", "\t\t\tpTbls[j].SelectAndAdd(v, uint64(b>>4))"),
+ ("C16__msm_receiver_reset_before_tables", "point_mul_multi.go", "\tpTbls := make([]projectivePointMultTable, l)\n\tsBytes := make([][ScalarSize]byte, l)\n\tfor i := 0; i < l; i++ {\n\t\tpTbls[i] = newProjectivePointMultTable(points[i])\n\t\tscalars[i].getBytes(&sBytes[i])\n\t}\n\n\tv.Identity()\n\n\tfor i := 0; i < ScalarSize; i++ {\n\t\tif i != 0 {\n\t\t\tv.doubleComplete(v)\n\t\t\tv.doubleComplete(v)\n\t\t\tv.doubleComplete(v)\n\t\t\tv.doubleComplete(v)\n\t\t}\n\n\t\tfor j := 0; j < l; j++ {\n\t\t\tb := sBytes[j][i]\n\t\t\tpTbls[j].SelectAndAdd(v, uint64(b>>4))", "\tv.Identity()\n\n\tpTbls := make([]projectivePointMultTable, l)\n\tsBytes := make([][ScalarSize]byte, l)\n\tfor i := 0; i < l; i++ {\n\t\tpTbls[i] = newProjectivePointMultTable(points[i])\n\t\tscalars[i].getBytes(&sBytes[i])\n\t}\n\n\tfor i := 0; i < ScalarSize; i++ {\n\t\tif i != 0 {\n\t\t\tv.doubleComplete(v)\n\t\t\tv.doubleComplete(v)\n\t\t\tv.doubleComplete(v)\n\t\t\tv.doubleComplete(v)\n\t\t}\n\n\t\tfor j := 0; j < l; j++ {\n\t\t\tb := sBytes[j][i]\n\t\t\tpTbls[j].SelectAndAdd(v, uint64(b>>4))"),
+ ("C16__msm_length_check", "point_mul_multi.go", "\tl := len(scalars)\n\tif l != len(points) {\n\t\tpanic(\"secp256k1: len(scalars) != len(points)\")\n\t}\n\n\tif l == 1 {\n\t\treturn v.ScalarMult(scalars[0], points[0])", "\tl := len(scalars)\n\tif l > len(points) {\n\t\tpanic(\"secp256k1: len(scalars) != len(points)\")\n\t}\n\n\tif l == 1 {\n\t\treturn v.ScalarMult(scalars[0], points[0])"),
+ ("C16__msm_vartime_last_point_skipped", "point_mul_multi.go", "\t\tfor j := 0; j < l; j++ {\n\t\t\tb := sBytes[j][i]\n\t\t\tpTbls[j].SelectAndAddVartime(v, uint64(b&0xf))", "\t\tfor j := 0; j < l-1+(i&1|1); j++ {\n\t\t\tb := sBytes[j][i]\n\t\t\tpTbls[j].SelectAndAddVartime(v, uint64(b&0xf))"),
+ ("C16__msm_vartime_missing_doubling", "point_mul_multi.go", "\t\t\tpTbls[j].SelectAndAddVartime(v, uint64(b>>4))\n\t\t}\n\n\t\tv.doubleComplete(v)\n\t\tv.doubleComplete(v)\n\t\tv.doubleComplete(v)\n\t\tv.doubleComplete(v)", "\t\t\tpTbls[j].SelectAndAddVartime(v, uint64(b>>4))\n\t\t}\n\n\t\tv.doubleComplete(v)\n\t\tv.doubleComplete(v)\n\t\tv.doubleComplete(v)\n\t\tv.Add(v, v)"),
+ ("C16__double_scalar_swapped", "point_mul_glv.go", "\tu1g := newRcvr().scalarBaseMultVartime(u1)\n\tu2p := newRcvr().scalarMultVartimeGLV(u2, p)", "\tu1g := newRcvr().scalarBaseMultVartime(u2)\n\tu2p := newRcvr().scalarMultVartimeGLV(u1, p)"),
  ("C11__negE_dropped", "secec/ecdsa.go", "u1 := secp256k1.NewScalar().Multiply(negE, rInv)", "u1 := secp256k1.NewScalar().Multiply(e, rInv)\n\t_ = negE"),
  ("C11__id_bound", "point_s11n.go", "if recoveryID >= 4 {", "if recoveryID > 4 {"),
  ("C11__s_zero_allowed", "secec/ecdsa.go", "if r.IsZero() != 0 || s.IsZero() != 0 {\n\t\treturn nil, errInvalidRorS\n\t}\n\n\t// This roughly", "if r.IsZero() != 0 {\n\t\treturn nil, errInvalidRorS\n\t}\n\n\t// This roughly"),
